@@ -9,7 +9,7 @@ META = {
                  'history/layer alignment) + correspondence with Scanner.ScanContainer on real images',
     'design_ref': 'DESIGN.md §5 C05',
     'text': 'Kernel-checked, unbounded theorems for the model of trace.PopulateLayerDetails and initializeChainLayers. The model is tied to the Go code by building real images '
-            '(1..6 history entries, empty layers interleaved, 1-3 package-list files with up to 4 packages, add/rewrite/delete/re-create/no-op; history full, missing or short), '
+            '(1..6 history entries, empty layers interleaved, 1-3 package-list files with up to 4 packages, add/rewrite/delete/re-create/no-op/replace-by-symlink; history full, missing or short; context optionally cancelled during the trace), '
             'scanning them with ScanContainer and a line-oriented fake extractor and comparing Index, DiffID and Command of every package; the oracle is the brute-force origin computed from the case.',
     'note': 'Trusted: Lean kernel; axioms propext/Quot.sound/Classical.choice at most; the Go harness, go-containerregistry image construction and the line protocol. '
             'Assumed: one extractor per file and one location per package (the cache key omits the extractor); filesystem.Run inside the trace fails only through a cancelled context (modelled as a cancellation point: the package then gets no LayerDetails — '
@@ -102,13 +102,15 @@ def run(ctx):
     def classify(case, fi, fm):
         mode, nf, ls = _layers(case)
         npk = 0 if fm.get('pk', '-') == '-' else fm['pk'].count(',') + 1
-        return 'mode=%s files=%d entries=%d empty=%d pkgs=%s%s%s' % (mode, nf, len(ls), sum(1 for l in ls if l == 'E'), npk if npk < 4 else '4+',
-                                                            ' symlink' if any('/s' in l for l in ls) else '', ' cancelled' if _cancel(case) else '')
+        unset = fi.get('pk', '').count('@nil')
+        return 'mode=%s entries=%d pkgs=%s%s%s%s' % (mode, len(ls), npk if npk < 3 else '3+', ' empty-layers' if 'E' in ls else '',
+                                                  ' symlink' if any('/s' in l for l in ls) else '',
+                                                  (' cancelled(unset=%s)' % ('0' if unset == 0 else '1+')) if _cancel(case) else '')
 
     lib.standard_stream(ctx, gen='c05gen', driver='drv_c05', gen_args=['-seed', str(ctx.seed), '-n', str(n), '-tier', ctx.tier],
                         compare_keys=['_', 'n', 'pk'], nontrivial=nontrivial, oracle=oracle, classify=classify)
-    if len(ctx.dist) > 60:
-        top = dict(sorted(ctx.dist.items(), key=lambda kv: -kv[1])[:60])
+    if len(ctx.dist) > 200:
+        top = dict(sorted(ctx.dist.items(), key=lambda kv: -kv[1])[:200])
         top['(other shapes)'] = sum(ctx.dist.values()) - sum(top.values())
         ctx.dist = top
     if not proofs_ok:
